@@ -188,7 +188,8 @@ func ruleSlotAccounting(c *Ctx, r *R) {
 			func(ret *ssa.Return) bool { k, ok := ret.Results[1].(*ssa.Const); return ok && k.Value != nil && k.Value.String() == "true" }},
 		{"parallel.mapStream.Next", func(in ssa.Instruction) bool {
 			snd, ok := in.(*ssa.Send)
-			return ok && fieldOfChan(snd.Chan) == "ready"
+			rf := mapChansOf(c, "parallel.MapStream").readyField
+			return ok && rf != "" && fieldOfChan(snd.Chan) == rf
 		}, func(ret *ssa.Return) bool { return isNilConst(ret.Results[1]) }},
 	} {
 		fn := c.fn(cs.name)
@@ -216,12 +217,13 @@ func ruleSlotAccounting(c *Ctx, r *R) {
 		if root == nil {
 			continue
 		}
+		mcs := mapChansOf(c, name)
 		for _, g := range withAnon(root) {
-			// the dispatcher is the closure that sends on `in`
+			// the dispatcher is the closure that sends on the work channel (the one the workers range over)
 			var handovers []ssa.Instruction
 			for _, op := range chanOpsOf(g) {
 				for _, a := range op.arms {
-					if a.send && strings.HasSuffix(a.chPath, "in") {
+					if a.send && mcs.work != nil && loadCell(a.ch) == mcs.work {
 						handovers = append(handovers, op.in)
 					}
 				}
@@ -235,7 +237,7 @@ func ruleSlotAccounting(c *Ctx, r *R) {
 				}
 				if sel, ok := in.(*ssa.Select); ok {
 					for _, st := range sel.States {
-						if st.Dir == types.RecvOnly && strings.HasSuffix(path(st.Chan), "ready") {
+						if st.Dir == types.RecvOnly && mcs.ready != nil && loadCell(st.Chan) == mcs.ready {
 							return true
 						}
 					}
@@ -261,7 +263,7 @@ func ruleSlotAccounting(c *Ctx, r *R) {
 				for _, op := range chanOpsOf(g) {
 					if sel, ok := op.in.(*ssa.Select); ok {
 						for idx, st := range sel.States {
-							if st.Dir == types.RecvOnly && strings.HasSuffix(path(st.Chan), "ready") {
+							if st.Dir == types.RecvOnly && mcs.ready != nil && loadCell(st.Chan) == mcs.ready {
 								body := selectArmBody(sel, idx)
 								r.ok(body != nil && body.Dominates(h.Block()), name+"|handover-after-ready-arm", posOf(h), "the hand-over must be reachable only through the arm that actually received a slot token")
 							}
@@ -292,10 +294,36 @@ func ruleMapOrder(c *Ctx, r *R) {
 			r.undecided(root+"|missing", token.NoPos, "anchor not found")
 			continue
 		}
-		// less closure passed to xheap.New: return a.idx < b.idx
+		// less closure passed to xheap.New (possibly inside a helper shared by both constructors): return a.idx < b.idx
 		okLess := false
-		for _, g := range fn.AnonFuncs {
-			if len(g.Params) == 2 && g.Signature.Results().Len() == 1 {
+		nNew := 0
+		for _, pf := range c.funcsOfPkg("parallel") {
+			instrs(pf, func(b *ssa.BasicBlock, i int, in ssa.Instruction) {
+				call, ok := in.(*ssa.Call)
+				if !ok {
+					return
+				}
+				cal := staticCallee(&call.Call)
+				if cal == nil || cal.Name() != "New" || cal.Pkg == nil || !strings.HasSuffix(cal.Pkg.Pkg.Path(), "container/xheap") {
+					return
+				}
+				// this call must be reachable from the constructor: in it, or in a function it calls
+				if rootFn(pf) != fn {
+					reach := false
+					for _, site := range callSitesOf(c, rootFn(pf)) {
+						if rootFn(site.Parent()) == fn {
+							reach = true
+						}
+					}
+					if !reach {
+						return
+					}
+				}
+				nNew++
+				g := resolveFuncValue(call.Call.Args[0], 0)
+				if g == nil || len(g.Params) != 2 {
+					return
+				}
 				instrs(g, func(b *ssa.BasicBlock, i int, in ssa.Instruction) {
 					if ret, ok := in.(*ssa.Return); ok {
 						if bin, ok := ret.Results[0].(*ssa.BinOp); ok && bin.Op == token.LSS && path(bin.X) == g.Params[0].Name()+".idx" && path(bin.Y) == g.Params[1].Name()+".idx" {
@@ -303,9 +331,9 @@ func ruleMapOrder(c *Ctx, r *R) {
 						}
 					}
 				})
-			}
+			})
 		}
-		r.ok(okLess, root+"|heap-less-by-idx", fn.Pos(), "the reorder heap must order results by a.idx < b.idx (min-heap on the source index)")
+		r.ok(okLess && nNew == 1, root+"|heap-less-by-idx", fn.Pos(), "the reorder heap must order results by a.idx < b.idx (min-heap on the source index)")
 		// dispatcher numbering: the idx field of the value handed over is a counter starting at 0 incremented by 1 per iteration
 		okNum := false
 		for _, g := range withAnon(fn) {
@@ -373,7 +401,7 @@ func ruleMapOrder(c *Ctx, r *R) {
 					if cf.op == token.EQL && strings.Contains(xs, "Peek") && strings.HasSuffix(xs, ".idx") && strings.HasSuffix(ys, ".i") {
 						guarded = true
 					}
-					if cf.op == token.GTR && strings.Contains(xs, "Len") && isConstInt(cf.y, 0) {
+					if strings.Contains(xs, "Len") && ((cf.op == token.GTR && isConstInt(cf.y, 0)) || (cf.op == token.NEQ && isConstInt(cf.y, 0)) || (cf.op == token.GEQ && isConstInt(cf.y, 1))) {
 						nonEmpty = true
 					}
 				}
@@ -476,9 +504,8 @@ func ruleMapCloseOut(c *Ctx, r *R) {
 				if !ok || bi.Name() != "close" {
 					return
 				}
-				p := path(call.Call.Args[0])
-				if strings.HasSuffix(p, "in") {
-					// dispatcher closes the input channel: for MapStream must be deferred (error exits), for MapIterator after the loop
+				if wc := mapChansOf(c, root).work; wc != nil && loadCell(call.Call.Args[0]) == wc {
+					// dispatcher closes the work channel: for MapStream must be deferred (error exits), for MapIterator after the loop
 					return
 				}
 				nClose++
@@ -490,7 +517,7 @@ func ruleMapCloseOut(c *Ctx, r *R) {
 						if cv, ok := y.(*ssa.Convert); ok {
 							y = cv.X
 						}
-						if (parCell != nil && loadCell(y) == parCell) || (parVal != nil && y == parVal) || (parCell != nil && cellOf(freeVarAddr(y)) == parCell) {
+						if (parCell != nil && loadCell(y) == parCell) || (parVal != nil && y == parVal) || (parCell != nil && cellOf(freeVarAddr(y)) == parCell) || (parVal != nil && sameRootVar(y, parVal)) {
 							okGuard = true
 						}
 					}
@@ -510,11 +537,11 @@ func ruleMapCloseOut(c *Ctx, r *R) {
 			instrs(g, func(b *ssa.BasicBlock, i int, in ssa.Instruction) {
 				switch x := in.(type) {
 				case *ssa.Defer:
-					if bi, ok := x.Call.Value.(*ssa.Builtin); ok && bi.Name() == "close" && strings.HasSuffix(path(x.Call.Args[0]), "in") && b == g.Blocks[0] {
+					if bi, ok := x.Call.Value.(*ssa.Builtin); ok && bi.Name() == "close" && loadCell(x.Call.Args[0]) == mapChansOf(c, root).work && mapChansOf(c, root).work != nil && b == g.Blocks[0] {
 						okIn = true
 					}
 				case *ssa.Call:
-					if bi, ok := x.Call.Value.(*ssa.Builtin); ok && bi.Name() == "close" && strings.HasSuffix(path(x.Call.Args[0]), "in") && root == "parallel.MapIterator" {
+					if bi, ok := x.Call.Value.(*ssa.Builtin); ok && bi.Name() == "close" && loadCell(x.Call.Args[0]) == mapChansOf(c, root).work && mapChansOf(c, root).work != nil && root == "parallel.MapIterator" {
 						// every return of the dispatcher must be preceded by it: single return after the loop
 						rets := 0
 						instrs(g, func(_ *ssa.BasicBlock, _ int, y ssa.Instruction) {
@@ -611,4 +638,55 @@ func ruleMapStreamError(c *Ctx, r *R) {
 			}
 		}
 	}
+}
+
+// mapChans identifies, for MapIterator / MapStream, the work channel (the one the spawned workers range over) and,
+// for MapStream, the slot-token channel (the buffered chan struct{}) together with the mapStream field holding it.
+type mapChans struct {
+	work       *ssa.Alloc
+	ready      *ssa.Alloc
+	readyField string
+}
+
+func mapChansOf(c *Ctx, root string) mapChans {
+	var mc mapChans
+	fn := c.fn(root)
+	if fn == nil {
+		return mc
+	}
+	for _, g := range withAnon(fn) {
+		if g == fn {
+			continue
+		}
+		for _, op := range chanOpsOf(g) {
+			if op.kind == "range" {
+				if cell := loadCell(op.arms[0].ch); cell != nil {
+					mc.work = cell
+				}
+			}
+		}
+	}
+	instrs(fn, func(b *ssa.BasicBlock, i int, in ssa.Instruction) {
+		mk, ok := in.(*ssa.MakeChan)
+		if !ok || !chanElemIsEmptyStruct(mk.Type()) {
+			return
+		}
+		for _, ref := range refsOf(mk) {
+			if st, ok := ref.(*ssa.Store); ok {
+				if cell, ok := st.Addr.(*ssa.Alloc); ok {
+					mc.ready = cell
+				}
+			}
+		}
+	})
+	if mc.ready != nil {
+		instrs(fn, func(b *ssa.BasicBlock, i int, in ssa.Instruction) {
+			if st, ok := in.(*ssa.Store); ok && loadCell(st.Val) == mc.ready {
+				if _, f, ok := storedField(st.Addr); ok {
+					mc.readyField = f
+				}
+			}
+		})
+	}
+	return mc
 }
